@@ -1,4 +1,4 @@
-from sa.selftest.harness import M, T
+from sa.selftest.harness import M, T, Variant
 
 X = "sharepoint2text/parsing/extractors/"
 PD = "sharepoint2text/parsing/extractors/pdf/pdf_extractor.py"
@@ -24,6 +24,7 @@ MUTANTS = [
     M("xlsx-sheet-part-by-position", X + "ms_modern/xlsx_extractor.py", "            if sheet_idx < len(sheet_parts) and sheet_parts[sheet_idx]:\n                part_dir, _, part_name = sheet_parts[sheet_idx].rpartition(\"/\")\n                rels_path = f\"{part_dir}/_rels/{part_name}.rels\"\n            else:\n                rels_path = f\"xl/worksheets/_rels/sheet{sheet_idx + 1}.xml.rels\"\n", "            rels_path = f\"xl/worksheets/_rels/sheet{sheet_idx + 1}.xml.rels\"\n", "C14-REF"),
 ]
 TWINS = [
+    T("epub-href-fragment-cut-by-partition", "sharepoint2text/parsing/extractors/epub_extractor.py", "        href = unquote(href.split(\"#\", 1)[0])\n", "        href = unquote(href.partition(\"#\")[0])\n"),
     T("docx-image-skip-on-empty-bytes", X + "ms_modern/docx_extractor.py", "            if img_data is None:\n                continue\n", "            if img_data is None or not target:\n                continue\n"),
     T("docx-target-resolver-early-return", X + "ms_modern/docx_extractor.py", "    if target.startswith(\"/\"):\n        path = target\n    else:\n        path = \"word/\" + target\n", "    path = target\n    if not target.startswith(\"/\"):\n        path = \"word/\" + target\n"),
     T("counter-renamed-epub", X + "epub_extractor.py", "            data = ctx.read_bytes(href)\n            # Count only images that could be read, so numbers stay gap-free\n            image_counter += 1\n", "            data = ctx.read_bytes(href)\n            image_counter = image_counter + 0\n            image_counter += 1\n"),
